@@ -33,6 +33,7 @@ func runC15(r *Report) {
 	r.Rule("C15/bounds", "every index/slice expression of the generator is proven by the compiler's prove pass or matches a checked idiom")
 	r.Rule("C15/error-reaches-exit", "every error returned on the path from a constructor to main is tested and propagated (packages goag, cmd/goag), so a failure cannot end in exit status 0")
 	r.Rule("C15/ref-value-phase", "while a self-referential component map is being filled (callbacks of NewMapRefSelf*), Ref[T].Value() of the same kind T is never called: entries that sort later are still empty and the call would dereference nil")
+	r.Rule("C15/ref-recursion", "where a constructor tests `<SchemaRef>.Ref != \"\"`, the branch taken for a reference never re-enters the recursive schema constructors: referenced schemas are looked up, only inline schemas (finite trees) are expanded recursively — a structural part of termination")
 	r.Rule("C15/exit-code", "cmd/goag main: a non-nil error from Generate* ends in log.Fatal*/os.Exit(!=0)")
 	r.Assumptions = append(r.Assumptions,
 		"after a successful load, a non-nil *Ref wrapper has a non-nil Value (kin-openapi resolves references)",
@@ -60,6 +61,7 @@ func runC15(r *Report) {
 	c.exitCode()
 	errPropagation(r, s, "C15/error-reaches-exit")
 	c.refValuePhase()
+	c.refRecursion()
 }
 
 func fnPkg(fn *ssa.Function) *ssa.Package {
@@ -998,4 +1000,78 @@ func refOfKind(t types.Type, T types.Type) bool {
 	}
 	ta := n.TypeArgs()
 	return ta != nil && ta.Len() == 1 && types.Identical(ta.At(0), T)
+}
+
+// refRecursion: on the `Ref != ""` branch no call may lead back into the function itself.
+func (c *c15) refRecursion() {
+	n := 0
+	for _, fn := range c.fns {
+		for _, b := range fn.Blocks {
+			iff, ok := b.Instrs[len(b.Instrs)-1].(*ssa.If)
+			if !ok {
+				continue
+			}
+			bo, ok := iff.Cond.(*ssa.BinOp)
+			if !ok || (bo.Op != token.NEQ && bo.Op != token.EQL) {
+				continue
+			}
+			k, isK := bo.Y.(*ssa.Const)
+			if !isK || k.Value == nil || k.Value.ExactString() != `""` {
+				continue
+			}
+			ld, ok := bo.X.(*ssa.UnOp)
+			if !ok || ld.Op != token.MUL {
+				continue
+			}
+			fa, ok := ld.X.(*ssa.FieldAddr)
+			if !ok || fieldName(fa) != "Ref" || !strings.HasSuffix(fa.X.Type().String(), kinPkg+".SchemaRef") {
+				continue
+			}
+			if _, isParam := fa.X.(*ssa.Parameter); !isParam {
+				continue // only the constructor's own argument guards its recursion
+			}
+			refSucc := b.Succs[0]
+			if bo.Op == token.EQL {
+				refSucc = b.Succs[1]
+			}
+			n++
+			key := shortFn(fn) + ":SchemaRef.Ref != \"\" branch"
+			// blocks reachable from the reference branch
+			seen := map[*ssa.BasicBlock]bool{}
+			stack := []*ssa.BasicBlock{refSucc}
+			bad := ""
+			for len(stack) > 0 {
+				x := stack[len(stack)-1]
+				stack = stack[:len(stack)-1]
+				if seen[x] {
+					continue
+				}
+				seen[x] = true
+				for _, ins := range x.Instrs {
+					call, ok := ins.(*ssa.Call)
+					if !ok {
+						continue
+					}
+					sc := call.Call.StaticCallee()
+					if sc == nil {
+						continue
+					}
+					pk := fnPkg(sc)
+					if pk == nil || !isRepoPkg(pk.Pkg.Path()) {
+						continue
+					}
+					if reach := c.s.closure([]*ssa.Function{sc}); reach[fn] || reach[originOf(fn)] {
+						bad = shortFn(sc) + " at " + c.s.pos(call.Pos())
+					}
+				}
+				stack = append(stack, x.Succs...)
+			}
+			if bad == "" {
+				c.r.OK("C15/ref-recursion", key, c.s.pos(iff.Pos()), "no recursive constructor call on the reference branch")
+			} else {
+				c.r.Violation("C15/ref-recursion", key, c.s.pos(iff.Pos()), "on the branch taken for a $ref the constructor calls "+bad+", which can re-enter "+shortFn(fn)+": a reference cycle (e.g. a schema pointing into itself) recurses until the stack overflows instead of being reported")
+			}
+		}
+	}
+	c.r.FloorMin("SchemaRef.Ref branch sites", n, 1)
 }
